@@ -24,6 +24,16 @@ CHECKS = [
         "Assumed: std::sync::RwLock serialises the validate+apply critical section (sequential semantics per critical section); clock < 2^48 s; fewer than 2^64 accepts per peer. Not decided: concurrent submitters beyond the lock argument, reload from disk, the async wrappers themselves.",
         "Verus contracts + induction lemmas on extracted code; Kani harnesses with named postconditions in the real crate",
         "DESIGN.md section 5 C12"),
+    chk("C13",
+        "Verus proves, on the mechanically extracted text of IPDiversityEnforcer::{can_accept_node, add_node, remove_node, can_accept_ipv4, add_ipv4, remove_ipv4, can_accept_unified, add_unified, remove_unified, set_network_size}, for every counter state (maps of any size): admitted iff every level is below its cap (halved, minimum one, for hosting/VPN; IPv4 caps scaled by the network-size rule); an admission counts each level exactly once and touches no other key of any map, a refused admission consumes nothing; removal returns each slot. Lemmas over those contracts give the history-level claims (caps hold after every admission and removal; remove undoes add). Kani proves, complete over the input domain, the f64 per-IP-limit contract that Verus assumes, and the prefix extraction.",
+        "Assumed: lru::LruCache is a finite map below its capacity (the property's own 50k qualifier; dependency contract, lru crate not verified); std::cmp::max/min, Option::copied specs; configured caps >= 1. Not decided: slot return on routing-table removal and on the partial-failure path of the async DhtCoreEngine::add_node, the connecting-peer path, BootstrapManager::add_peer.",
+        "Verus function contracts + lemmas on mechanically extracted code (let-chain / ref-pattern desugaring listed in the evidence); Kani complete harnesses for the float and bit-level callees",
+        "DESIGN.md section 5 C13"),
+    chk("C14",
+        "Kani proves the per-call contract of the token bucket (Bucket::try_consume, Bucket::new) over the full f64 token / u32 cap / clock domain (loop-free, complete): a grant needs a token and a window slot and consumes exactly one of each, a denial changes neither beyond crediting elapsed refill, tokens never exceed burst; and the prefix extraction of the join limiter (first 64/48/32 resp. 24/16/8 bits, complete).",
+        "History-level bounds follow from the per-call contract by induction (refill sums treated as real numbers). Assumed: one lock around try_consume; clock monotone. Not decided: concurrent submitters beyond the lock argument; the async call site.",
+        "Kani proof harnesses with named postconditions inside the real crate (bit-precise floats)",
+        "DESIGN.md section 5 C14"),
 ]
 
 _PENDING = "check under construction in this session (claimed in DESIGN.md; will move to checks when its obligations discharge)"
@@ -38,8 +48,6 @@ NOT_APPLICABLE = [
     {"property_id": "C09", "reason": _PENDING},
     {"property_id": "C10", "reason": "floating-point power iteration over HashMaps with data-dependent iteration count inside async methods on tokio locks; bounds on a float fixed point are outside both tools"},
     {"property_id": "C11", "reason": "quantitative statement about the limit of that iteration over all attack graphs up to 1000 nodes; no inductive invariant within reach"},
-    {"property_id": "C13", "reason": _PENDING},
-    {"property_id": "C14", "reason": _PENDING},
     {"property_id": "C15", "reason": _PENDING},
     {"property_id": "C16", "reason": _PENDING},
     {"property_id": "C17", "reason": _PENDING},
